@@ -131,6 +131,8 @@ def job_args(spec, opts, cell, **kw):
     a = {"spec": spec, "opts": cell_opts(opts, cell), "sched": cell["sched"], "bufsize": cell.get("bufsize", 8192)}
     if cell.get("rerun"):
         a["rerun"] = True
+    if cell.get("pre"):
+        a["pre"] = cell["pre"]
     a.update(kw)
     return a
 
